@@ -270,7 +270,7 @@ pub fn explore(opts: &Opts) -> Explored {
         let mut m = base_cfg("user-ops/N3F2P2", lv.clone(), vec![OpK::UMul, OpK::UScale(3.0)], 5);
         m.bounds = match opts.tier {
             Tier::Quick => Bounds { builds: 2, flags: 2, passes: 2, depth: 6, ..Bounds::default() },
-            Tier::Thorough => Bounds { builds: 3, flags: 2, passes: 2, clones: 1, drops: 1, depth: 7, ..Bounds::default() },
+            Tier::Thorough => Bounds { builds: 3, flags: 2, passes: 2, depth: 6, ..Bounds::default() },
         };
         m.flag_kinds = vec![0, 1, 2, 3];
         m.touch_leaves = true;
